@@ -55,6 +55,9 @@ pub enum Op {
     SetLog { level: String },
     /// drop rewriter r and construct it again (same configuration, same PRNG seed)
     Renew { r: usize },
+    /// a call on rewriter r whose file reader, at its first open, re-enters: a call on ANOTHER rewriter
+    /// r2 runs to completion inside it (a require hook firing while the host loads the map file)
+    Nested { r: usize, f: usize, s: usize, r2: usize, f2: usize, s2: usize },
 }
 
 #[derive(Serialize, Deserialize, Clone, Debug)]
@@ -133,6 +136,19 @@ fn gen_cfg(rng: &mut Rng, explicit_prefix: Option<&str>) -> Value {
                 }
             }
         }
+        4 => {
+            // a src listed more than once (merged configuration lists): same flag, same or another dst
+            if let Some(ms) = cfg["csiMethods"].as_array_mut() {
+                ms.push(json!({"src": "trim"}));
+                ms.push(json!({"src": "concat", "dst": "stringConcatAgain"}));
+                ms.insert(1, json!({"src": "plusOperator", "operator": true}));
+                ms.push(json!({"src": "substring", "dst": "stringSubstring"}));
+            }
+        }
+        5 => {
+            // string methods only: no operator is rewritten
+            cfg["csiMethods"] = json!([{"src": "trim"}, {"src": "concat"}, {"src": "substring", "dst": "stringSubstring"}]);
+        }
         2 => {
             // method allowed without callee
             cfg["csiMethods"].as_array_mut().unwrap().push(json!({"src": "fn0", "allowedWithoutCallee": true}));
@@ -179,8 +195,16 @@ fn plan16(seed: u64, run: u64, tier: Tier) -> Plan16 {
         o.comments = rng.chance(1, 2);
         o.crlf = rng.chance(1, 8);
         o.unicode = rng.chance(1, 4);
-        let kind = rng.weighted(&[8, 3, 2, 2, 3, 1, 1, 2]);
+        let kind = rng.weighted(&[8, 3, 2, 2, 3, 1, 1, 2, 1, 2]);
         let (kind_s, mut text) = match kind {
+            9 => {
+                let n = *rng.pick(&[64usize, 65, 100, 128, 255, 256, 257, 511, 512, 513, 600, 1024]);
+                ("repeat", jsgen::gen_repeat(&mut rng, n))
+            }
+            8 => {
+                let n = rng.range(1, 5);
+                ("module", jsgen::gen_module(&mut rng, n))
+            }
             7 => {
                 let n = rng.range(1, 4);
                 ("corpus", jsgen::gen_corpus(&mut rng, n))
@@ -285,8 +309,15 @@ fn plan16(seed: u64, run: u64, tier: Tier) -> Plan16 {
             (Some((lr, lf, ls)), 3) => (lr, lf, ls),        // exact repeat
             _ => (r, f, s),
         };
-        let k = rng.weighted(&[12, 3, 3, 2, 2, 1, 2, 1]);
+        let k = rng.weighted(&[12, 3, 3, 2, 2, 1, 2, 1, if n_rw > 1 { 1 } else { 0 }]);
         let op = match k {
+            8 => {
+                // the outer source should make the reader open something
+                let ext: Vec<usize> = (0..sources.len()).filter(|i| sources[*i].kind.contains("external") || sources[*i].kind.contains("missing")).collect();
+                let so = if ext.is_empty() { s } else { ext[rng.below(ext.len())] };
+                let r2 = (r + 1 + rng.below(n_rw - 1)) % n_rw;
+                Op::Nested { r, f, s: so, r2, f2: rng.below(files.len()), s2: rng.below(sources.len()) }
+            }
             7 => Op::Idle { ms: *rng.pick(&[1, 1000, 61_000, 3_600_000, 86_400_000 * 8]) },
             6 => {
                 let mut fp = FaultPlan::default();
@@ -637,6 +668,40 @@ impl Engine for C16 {
                     hist.push((5, *r, "-"));
                     stat(&mut rep, "op:renew", 1);
                 }
+                Op::Nested { r, f, s, r2, f2, s2 } => {
+                    if let (Some(c), Some(c2)) = (&configs[*r], &configs[*r2]) {
+                        let inner_out: std::cell::RefCell<Option<Outcome>> = std::cell::RefCell::new(None);
+                        let res = {
+                            let io = &inner_out;
+                            let (t2, n2, fs2) = (&plan.sources[*s2].text, &plan.files[*f2], &plan.fs);
+                            exec::call_reentrant(
+                                c,
+                                &plan.sources[*s].text,
+                                &plan.files[*f],
+                                &plan.fs,
+                                &FaultPlan::clean(),
+                                Box::new(move || {
+                                    *io.borrow_mut() = Some(exec::call(c2, t2, n2, fs2, &FaultPlan::clean()).outcome);
+                                }),
+                            )
+                        };
+                        for (k, n) in &res.stats.faults_fired {
+                            stat(&mut rep, &format!("fault:{k}"), *n as u64);
+                        }
+                        check("nested-outer", *r, *f, *s, &res.outcome, &mut model, &mut viol, seq);
+                        let inner = inner_out.into_inner();
+                        if let Some(o) = &inner {
+                            check("nested-inner", *r2, *f2, *s2, o, &mut model, &mut viol, seq);
+                            triples.insert((*r2, *f2, *s2), ());
+                        }
+                        let cls = res.outcome.class();
+                        log.push(format!("#{seq} Nested r={r} f={f} s={s} -> {cls} {:016x}; inner r={r2} f={f2} s={s2} -> {}", res.outcome.digest(), inner.as_ref().map(|o| format!("{} {:016x}", o.class(), o.digest())).unwrap_or_else(|| "not-fired".into())));
+                        prev = Some((*r, *f, *s, cls));
+                        triples.insert((*r, *f, *s), ());
+                        hist.push((8, *r, cls));
+                        stat(&mut rep, "op:nested", 1);
+                    }
+                }
                 Op::Idle { ms } => {
                     instant::sim::advance(std::time::Duration::from_millis(*ms));
                     stat(&mut rep, "sim-time-ms", *ms);
@@ -867,7 +932,7 @@ impl Engine for C16 {
     }
 
     fn rule(&self) -> String {
-        "a case is one seeded call history (10-60 operations: Call (benign faults incl. simulated latency)/Repeat/Fresh/Hop/FaultCall/SetLog/Renew/Idle (simulated time passes) over <=4 rewriters, <=6 files, <=8 generated sources, benign reader faults); distinct = hash of the abstract history (operation kind, rewriter index, outcome class per step); non-trivial = at least two operations; cells = outcome-class transitions x same/other rewriter x same/other file".into()
+        "a case is one seeded call history (10-60 operations: Call (benign faults incl. simulated latency)/Repeat/Fresh/Hop/FaultCall/SetLog/Renew/Idle (simulated time passes)/Nested (the reader re-enters the rewriter on another instance) over <=4 rewriters, <=6 files, <=8 generated sources, benign reader faults); distinct = hash of the abstract history (operation kind, rewriter index, outcome class per step); non-trivial = at least two operations; cells = outcome-class transitions x same/other rewriter x same/other file".into()
     }
 
     fn components(&self) -> Value {
